@@ -33,7 +33,7 @@ if [ -n "$(git -C /repo status --porcelain)" ]; then echo "/repo is dirty; abort
 git -C /repo apply "$SRC/patch.diff" || { echo "cannot apply to /repo"; exit 2; }
 RESULTS=""
 for C in $ID "$@"; do
-  /verif/bin/check "$C" quick > "/tmp/seed_check_$C.log" 2>&1
+  timeout 2400 /verif/bin/check "$C" quick > "/tmp/seed_check_$C.log" 2>&1
   RC=$?
   NV=$(grep -c '^VIOLATION' "/tmp/seed_check_$C.log")
   echo "check $C quick: exit=$RC violations=$NV $(grep -m1 'finding:' /tmp/seed_check_$C.log | cut -c1-200)"
